@@ -41,7 +41,7 @@ var delims = []byte{',', ',', ',', ';', '\t', '|', ' ', 'x', '0', 0x00, 0xff}
 
 var strPieces = []string{"a", "b", "abc", "x", " ", "  ", "\"", "\"\"", "\n", "é", "\xff", "\xc3", "0", "t", "-", ".", "'", "$", "Z", "漢"}
 var intCells = []string{"0", "1", "-1", "12", "+7", "007", "123456789", "-0", "9223372036854775807"}
-var floatCells = []string{"1.5", "-2.25", "1e3", "NaN", "inf", "-Inf", "0.1", ".5", "5.", "1E-7", "-0.0", "0x1p-2", "9300000000000000000", "18446744073709551615", "123456789012345678901234567890", "0.30000000000000004"}
+var floatCells = []string{"1.5", "-2.25", "1e3", "NaN", "inf", "-Inf", "0.1", ".5", "5.", "1E-7", "-0.0", "0x1p-2", "9300000000000000000", "18446744073709551615", "123456789012345678901234567890", "0.30000000000000004", "100000000000000000000000000000000000000000", "0.00000000000000000000000000000000000001", "-12345678901234567890123456789012345.5"}
 var boolCells = []string{"true", "false", "t", "f", "T", "F", "TRUE", "False", "1", "0", "1", "0"}
 
 func drawCell(t *rapid.T, flavour int, delim byte, long bool) string {
@@ -191,6 +191,13 @@ func DrawCSV(t *rapid.T, b CSVBounds) *CSVCase {
 	for i := range flav {
 		flav[i] = rapid.IntRange(0, 4).Draw(t, "flavour")
 	}
+	giantRow := -1
+	if b.Long && !big && !c.OddHeader && Rare(t, "giant", 2500) {
+		// one row far beyond 32 KiB (the scan buffer doubles six times),
+		// followed by well over a kilobyte of ordinary rows
+		nrows = rapid.IntRange(40, 70).Draw(t, "giantrows")
+		giantRow = rapid.IntRange(0, 3).Draw(t, "giantat")
+	}
 	cardinality := 0
 	if b.Cardinality && !big && !c.OddHeader && Rare(t, "cardinality", 300) {
 		// the enum cardinality limit: one column with 254..258 distinct values
@@ -207,6 +214,11 @@ func DrawCSV(t *rapid.T, b CSVBounds) *CSVCase {
 					if growAfter > 0 && r >= growAfter {
 						row[i] += strings.Repeat("w", growBy*(1+i%2))
 					}
+				}
+			} else if giantRow >= 0 {
+				row[i] = "r" + strconv.Itoa(r) + "c" + strconv.Itoa(i) + strings.Repeat("x", 25)
+				if r == giantRow && i == ncols-1 {
+					row[i] = strings.Repeat("giant,\"cell\"\n", []int{2400, 2800, 4700, 5000}[rapid.IntRange(0, 3).Draw(t, "giantlen")])
 				}
 			} else if cardinality > 0 {
 				row[i] = "v" + strconv.Itoa((r*7+i)%cardinality)
